@@ -33,9 +33,9 @@ CLAIMS = {
          "C02_varying_capacity_refuted (vm_compute witness that the formula under-estimates a list with a 1-aligned tail behind the last VaryingSize parameter, tail_ok = false = known finding). "
          "Tie: fills to the documented limits under a guard-zone allocator, field extents vs memory_consumption(); an overrun on a list with benign tail is never accepted as the known finding.",
          "5 C02"),
- "C06": ("proof (element-level lifetime balance) + correspondence with instrumented value types; partial",
-         "Theorems C06_emplace_constructs_each_object_once, C06_destruct_destroys_each_object_once, C06_emplace_then_destruct_balanced for every parameter list. PARTIAL: the history-level invariant is proved only where it is vacuous-by-refinement (trivially relocatable lists, C01); "
-         "non-trivial lists are decided by the correspondence: registry of live instrumented objects (overlap, double construction/destruction, clobbered shadow bytes), event streams vs model, relocation-through-constructor oracle. Known finding: erase on VaryingSize lists of non-trivial types.",
+ "C06": ("proof (element-level lifetime balance; history level: exact construct/destroy lists per operation and multiset balance over a whole life, every list with non-trivial types) + correspondence with instrumented value types",
+         "Theorems C06_emplace_constructs_each_object_once, C06_destruct_destroys_each_object_once, C06_emplace_then_destruct_balanced for every parameter list. History level (LifeHist.v): C06_step_turns_held_objects_into_held_objects (in any represented state emplace_back / pop_back / clear / erase(first,end()) / reserve construct and destroy exactly the objects they add or remove - a growing reserve constructs every object once in the new block and destroys every object of the moved-from old block once) and C06_whole_life_objects_balanced (construction, any valid history, destruction: constructions and destructions coincide as multisets of (block, offset, size)). "
+         "PARTIAL: erase with a tail on non-trivial lists (known finding), a no-duplicates statement over the whole event log, and copy/move assignment between vectors are decided by the correspondence: registry of live instrumented objects (overlap, double construction/destruction, clobbered shadow bytes), event streams vs model, relocation-through-constructor oracle.",
          "5 C06"),
  "C07": ("proof (ledger automaton invariant over histories) + correspondence with a ledger allocator",
          "Theorem C07_whole_life_balanced: construction, ANY history, destruction leaves the allocation ledger empty (trivially relocatable lists); C07_destroy_returns_everything for every list. "
